@@ -28,7 +28,18 @@ Added to the subset of py2lean_bits:
   * a method that assigns attributes of its object and ends with `return self`, called on the result of a call that returns a
     FRESH object (every `return` of that callee is a constructor call): `C.from_bytes(..).context(h)`;
   * `bytes([x])` with `x : Optional[int]` (`TypeError` on `None`), `ba2int(x, False)`, `int2ba(.., signed=False)`,
-    keyword arguments of externals.
+    keyword arguments of externals (a parameter fixed to one value: the live default is checked);
+  * pair-valued Enum classes (`TMSPDUType`, values `(bool, int)`; `tenums=`): a member is its NUMBER in a declared order,
+    `E((c, v))` = `PyObj.enumCallPair` through the extracted graph, `.value` = `PyObj.pairVal`; the generated file proves
+    (`decide`) that the value table it indexes is the live class's in that order;  Enum graphs that give the member value
+    directly (`enums={"E": ("V", graph)}`);
+  * locals declared `Optional[T]` (the annotation is the static type; `T` / `None` values are coerced, also through tuple
+    unpacking); a function annotated `Optional[...]` that can fall off the end gets the implicit `return None`;
+  * `bits += [b, …]` / `bits += (ba if c else [0, …])` on a fresh local bitarray; `bytes + Optional[bytes]`;
+    `Optional[E] == member`, order comparisons / `int2ba` with an `Optional[int]` (`TypeError` on `None`);
+  * a method that assigns attributes, called on an object reachable from `self` (`self.header.set_has_more_headers(x)`):
+    only inside a `return` expression with no later read of `self`; the definition is then marked (doc comment,
+    `hidden_mutation`): it gives the RETURN VALUE only and no translated function may call it.
 Refused here although py2lean_bits has it: attribute assignment on anything but `self` (an object stored in two places and then
 changed through one of them would be visible through the other; value semantics cannot show that).
 """
